@@ -218,4 +218,136 @@ theorem skipLoop_modKeys_nodup (seenT : List (Option Nat)) (seenM : List Str) (l
         simp only [List.filterMap_cons, hk]
         exact ⟨i1, i2⟩
 
+/-- a definition (not of type `module`) whose tree name was not seen before has a representative
+with the same tree name among the results `_try_to_skip_duplicates` lets through -/
+theorem skipLoop_keeps (t : Nat) (seenT : List (Option Nat)) (seenM : List Str) (l : List Nm) (d : Nm)
+    (hd : d ∈ l) (hty : d.type ≠ "module".toList) (ht : d.treeId = some t) (hs : some t ∉ seenT) :
+    ∃ d' ∈ skipLoop seenT seenM l, d'.treeId = some t := by
+  induction l generalizing seenT seenM with
+  | nil => cases hd
+  | cons x xs ih =>
+    have tail_of : d ≠ x → d ∈ xs := fun hne => by
+      rcases List.mem_cons.mp hd with h | h
+      · exact absurd h hne
+      · exact h
+    simp only [skipLoop]
+    split
+    · rename_i hc
+      have hne : d ≠ x := by
+        intro h
+        subst h
+        rw [ht] at hc
+        exact hs hc.2
+      exact ih _ _ (tail_of hne) hs
+    · by_cases hx : x.treeId = some t
+      · split
+        · rename_i p hp
+          split
+          · have hne : d ≠ x := by
+              intro h
+              subst h
+              simp at hp
+              exact hty (hp.1.trans (by decide))
+            exact ih _ _ (tail_of hne) hs
+          · exact ⟨x, List.mem_cons_self, hx⟩
+        · exact ⟨x, List.mem_cons_self, hx⟩
+      · have hne : d ≠ x := fun h => hx (h ▸ ht)
+        have hs' : some t ∉ x.treeId :: seenT := by
+          simp only [List.mem_cons, not_or]
+          exact ⟨fun h => hx h.symm, hs⟩
+        split
+        · split
+          · exact ih _ _ (tail_of hne) hs
+          · obtain ⟨d', h1, h2⟩ := ih _ _ (tail_of hne) hs'
+            exact ⟨d', List.mem_cons_of_mem _ h1, h2⟩
+        · obtain ⟨d', h1, h2⟩ := ih _ _ (tail_of hne) hs'
+          exact ⟨d', List.mem_cons_of_mem _ h1, h2⟩
+
+/-- a module hit whose `module_path` was not seen before has a representative with the same
+`module_path` among the results (module names carry no tree name) -/
+theorem skipLoop_keeps_module (p : Str) (seenT : List (Option Nat)) (seenM : List Str) (l : List Nm) (d : Nm)
+    (hd : d ∈ l) (hk : modKey d = some p) (hid : d.treeId = none) (hs : p ∉ seenM) :
+    ∃ d' ∈ skipLoop seenT seenM l, modKey d' = some p := by
+  induction l generalizing seenT seenM with
+  | nil => cases hd
+  | cons x xs ih =>
+    have tail_of : d ≠ x → d ∈ xs := fun hne => by
+      rcases List.mem_cons.mp hd with h | h
+      · exact absurd h hne
+      · exact h
+    simp only [skipLoop]
+    split
+    · rename_i hc
+      have hne : d ≠ x := by
+        intro h
+        subst h
+        rw [hid] at hc
+        simp at hc
+      exact ih _ _ (tail_of hne) hs
+    · by_cases hx : modKey x = some p
+      · have hx' : (if x.type = "module".toList then x.modPath else none) = some p := hx
+        split
+        · rename_i q hq
+          have : q = p := by
+            rw [hx'] at hq
+            exact (Option.some.inj hq).symm
+          subst this
+          split
+          · rename_i hin
+            exact absurd hin hs
+          · exact ⟨x, List.mem_cons_self, hx⟩
+        · rename_i hq
+          rw [hx'] at hq
+          cases hq
+      · have hne : d ≠ x := fun h => hx (h ▸ hk)
+        split
+        · rename_i q hq
+          split
+          · exact ih _ _ (tail_of hne) hs
+          · have hs' : p ∉ q :: seenM := by
+              simp only [List.mem_cons, not_or]
+              refine ⟨fun h => hx ?_, hs⟩
+              subst h
+              exact hq
+            obtain ⟨d', h1, h2⟩ := ih _ _ (tail_of hne) hs'
+            exact ⟨d', List.mem_cons_of_mem _ h1, h2⟩
+        · obtain ⟨d', h1, h2⟩ := ih _ _ (tail_of hne) hs
+          exact ⟨d', List.mem_cons_of_mem _ h1, h2⟩
+
+/-! ## step 1 of `_search_func` and the files handed to step 2 -/
+
+/-- if the file branch appends every file (named like the word or not) and reaches the module hit
+exactly for the files named like the word, the step-1 loop yields the module hits of the
+specification and hands **every file the walk yields** to step 2, in walk order -/
+theorem step1_eq (fs : Bool → Option (Bool × Bool)) (sfx : List Str) (stubSfx : Str) (lower : Str → Str)
+    (tbl : List PathInfo) (wantedType name : Str) (complete : Bool)
+    (h : ∀ named, fs named = some (true, named)) (evs : List Ev) :
+    step1 fs sfx stubSfx lower tbl wantedType name complete evs =
+      some (moduleHits sfx stubSfx lower tbl wantedType name complete evs,
+            (evs.filter (·.isFile)).map (·.path)) := by
+  induction evs with
+  | nil => simp [step1, moduleHits]
+  | cons ev evs ih =>
+    simp only [step1, ih, moduleHits]
+    cases hf : ev.isFile
+    · simp [hf]
+    · simp [hf, h]
+
+theorem moduleHit_mem_moduleHits (sfx : List Str) (stubSfx : Str) (lower : Str → Str)
+    (tbl : List PathInfo) (wantedType name : Str) (complete : Bool) (evs : List Ev) (ev : Ev) (hev : ev ∈ evs)
+    (hn : (if ev.isFile then fileNamed sfx name ev else folderNamed stubSfx name ev) = true) :
+    ∀ m ∈ moduleHit lower tbl wantedType name complete ev,
+      m ∈ moduleHits sfx stubSfx lower tbl wantedType name complete evs := by
+  intro m hm
+  induction evs with
+  | nil => cases hev
+  | cons e es ih =>
+    simp only [moduleHits, List.mem_append]
+    rcases List.mem_cons.mp hev with h | h
+    · subst h
+      left
+      rw [hn]
+      simpa using hm
+    · exact .inr (ih h)
+
 end JediModel.Search
